@@ -113,7 +113,9 @@ mut("C08", "identity-not-reinitialised", ESO,
     "                    self.data[0,i,j,i,j] = 1.0\n                \n        elif self.mode == \"jit\":",
     "                    self.data[0,i,j,i,j] = 1.0 if i <= j else 0.0\n                \n        elif self.mode == \"jit\":")
 mut("C08", "at-off-by-one", ESO,
-    "            return SuperOperator(data=self.data[ti, :, :, :, :])", "            return SuperOperator(data=self.data[min(ti+1, self.data.shape[0]-1), :, :, :, :])")
+    "            return SuperOperator(data=self.data[ti, :, :, :, :].copy())", "            return SuperOperator(data=self.data[min(ti+1, self.data.shape[0]-1), :, :, :, :].copy())")
+mut("C04", "eso-at-returns-view-again", ESO,
+    "            return SuperOperator(data=self.data[ti, :, :, :, :].copy())", "            return SuperOperator(data=self.data[ti, :, :, :, :])")
 
 # ------------------------------------------------------------------ C09
 CF = "quantarhei/qm/corfunctions/correlationfunctions.py"
